@@ -112,6 +112,10 @@ class Scale:
                 return ("LCB", 0)
             return ("bool", 0)
         if isinstance(n, ast.IfExp):
+            st_ = self.static_test(n.test, env)
+            if st_ is not None:
+                # decided by the operand kind: only that arm is evaluated for this kind
+                return self.ex(n.body if st_ else n.orelse, env, fi, ctx)
             a = self.ex(n.body, env, fi, ctx)
             b = self.ex(n.orelse, env, fi, ctx)
             return a if a == b else ("unknown", None)
